@@ -280,6 +280,9 @@ class Gen:
         if self.chance("p_bad_tag"):
             tag = units.gen_tag(r, malformed_p=0.9)
         f = {"name": ("F%d" % self.fname).encode() if exported else ("f%d" % self.fname).encode(), "exported": exported, "tag": tag, "type": t, "fid": fid}
+        info["field"] = f["name"]
+        info["ininame"] = dict(kvs).get(b"ini-name")
+        info["noini"] = b"no-ini" in dict(kvs)
         if exported and (t[0] == "func" or self.chance("p_init")):
             self.init[fid] = self.init_value(t)
         return f, info
@@ -304,7 +307,7 @@ class Gen:
             self.init[self.fid] = self.init_value(t)
         return f
 
-    def gen_fields(self, scope, node, depth, in_group=False, ns=(), envns=()):
+    def gen_fields(self, scope, node, depth, in_group=False, ns=(), envns=(), gdesc=None):
         """fields of one struct; node collects option infos / positionals / commands for argv generation"""
         r = self.rng
         fields = []
@@ -324,6 +327,7 @@ class Gen:
                 f, info = self.gen_option(scope)
                 info["ns"] = ns
                 info["envns"] = envns
+                info["gdesc"] = gdesc
                 node["opts"].append(info)
                 fields.append(f)
         # nested group
@@ -331,7 +335,8 @@ class Gen:
             self.sid += 1
             self.fname += 1
             sid = self.sid
-            kv = [(b"group", r.choice([b"Sub Group", b"Extra Options", b"More", "Gruppe é".encode()]))]
+            subdesc = r.choice([b"Sub Group", b"Extra Options", b"More", "Gruppe é".encode()])
+            kv = [(b"group", subdesc)]
             gns = ()
             gens = ()
             if self.chance("p_namespace"):
@@ -344,7 +349,7 @@ class Gen:
             if r.random() < 0.3: kv.append((b"description", b"Group long description"))
             ptr = self.chance("p_ptr_group")
             isnil = ptr and self.chance("p_nil_ptr")
-            sub = self.gen_fields(scope, node, depth + 1, True, ns + gns, envns + gens)
+            sub = self.gen_fields(scope, node, depth + 1, True, ns + gns, envns + gens, subdesc)
             if isnil: self.defunc(sub, node)
             fields.append({"name": ("G%d" % self.fname).encode(), "exported": True, "tag": self.tag_of(kv),
                            "struct": {"ptr": ptr, "nil": isnil, "fields": sub, "sid": sid}})
@@ -353,7 +358,7 @@ class Gen:
             self.fname += 1
             ptr = r.random() < 0.5
             isnil = ptr and r.random() < 0.5
-            sub = self.gen_fields(scope, node, depth + 1, in_group, ns, envns)
+            sub = self.gen_fields(scope, node, depth + 1, in_group, ns, envns, gdesc)
             if isnil: self.defunc(sub, node)
             fields.append({"name": ("N%d" % self.fname).encode(), "exported": True, "tag": b"",
                            "struct": {"ptr": ptr, "nil": isnil, "fields": sub, "sid": self.sid}})
@@ -406,10 +411,10 @@ class Gen:
     def new_node(self, name=None, aliases=()):
         return {"name": name, "aliases": list(aliases), "opts": [], "pos": [], "subs": [], "subopt": False}
 
-    def gen_command_fields(self, node, depth):
+    def gen_command_fields(self, node, depth, gdesc=None):
         """fields of a command/application struct, possibly with tag-declared sub-commands"""
         scope = {"long": set(), "short": set()}
-        fields = self.gen_fields(scope, node, 0)
+        fields = self.gen_fields(scope, node, 0, gdesc=gdesc)
         if self.chance("p_positional"):
             fields.append(self.gen_positional(node))
         return fields
@@ -476,7 +481,7 @@ class Gen:
         data = None
         taken = set()
         if r.random() < 0.9:
-            data = self.gen_command_fields(root, 0)
+            data = self.gen_command_fields(root, 0, b"Application Options")
             if self.chance("p_commands") and self.chance("p_tagcmd"):
                 lo, hi = self.p["n_cmds"]
                 for _ in range(r.randint(lo, hi)):
@@ -485,8 +490,9 @@ class Gen:
             node_g = root
             scope = {"long": set(), "short": set()}
             ns = r.choice([b"", b"", b"grp"])
-            fields = self.gen_fields(scope, node_g, 1, True, (ns,) if ns else (), ())
-            attach.append({"kind": "group", "path": [], "short": r.choice([b"Extra", b"Added Group"]), "long": b"", "fields": fields,
+            gshort = r.choice([b"Extra", b"Added Group"])
+            fields = self.gen_fields(scope, node_g, 1, True, (ns,) if ns else (), (), gshort)
+            attach.append({"kind": "group", "path": [], "short": gshort, "long": b"", "fields": fields,
                            "ns": ns, "envns": r.choice([b"", b"EX"]), "hidden": r.random() < 0.1})
             if attach[-1]["envns"]:
                 for o in node_g["opts"]:
@@ -531,7 +537,7 @@ class Gen:
         if ex is not None and r.random() < 0.8:
             scope = {"long": set(), "short": set()}
             pseudo = node
-            gfields = self.gen_fields(scope, pseudo, 1, False)
+            gfields = self.gen_fields(scope, pseudo, 1, False, gdesc=b"Command Options")
             if self.chance("p_positional"):
                 gfields.append(self.gen_positional(pseudo))
             attach.append({"kind": "group", "path": mypath, "short": b"Command Options", "long": b"", "fields": gfields, "ns": b"", "envns": b"", "hidden": False})
